@@ -34,8 +34,8 @@ TEXT = {
  "C10": ("Theorems over the shard filter: for every integer event ID and every shard count n >= 2 exactly one shard handles the event; the original truncated remainder refuted (F7, repaired). Correspondence: real shardFilter on all residues and both signs; the launch family compares the roles the real Run requests with the model's enumeration on the whole configuration grid (per-unit/default counts 0..8 x hooks x timeouts x connectors x paused-retry, two display-string variants).",
          "Connector consumers run inside the engine harness; for all histories a shard never passes a connector event it owns without the connector function having returned nil on it (theorem), other shards acknowledge it unhandled (theorem), and the monitor checks every connector event is handled by exactly its own shard. Launch: theorems that the model's launch list is exactly the configured units, each once, with max(1,n) consumers forming shards 1..n of n; the list is tied to the real Run by the launch family. PARTIAL: distinctness of the role-name strings is an exhaustive comparison on the grid, not a theorem. int64 modelled as Z. " + TRUST,
          "Coq proof (shard partition for all Z) + exhaustive / differential correspondence"),
- "C11": ("Theorems: for EVERY state a store/stream/timeout call made after lease loss or crash has no effect; a failed operation takes the error exit and the process survives; memrolescheduler transition system: at most one live holder per role for every interleaving of await/grant/cancel/unlock. Monitor on the real engine: every call under the current lease, Await after errors, open/close balance, no call after Stop.",
-         "PARTIAL: freedom from data races is a statement about Go's memory model; it is not modelled and nothing is claimed for it. " + TRUST,
+ "C11": ("Theorems: for EVERY state a store/stream/timeout call made after lease loss or crash has no effect; a failed operation takes the error exit and the process survives; memrolescheduler transition system: at most one live holder per role for every interleaving of await/grant/cancel/unlock. Monitor on the real engine: every call under the current lease, Await after errors, open/close balance, no call after Stop, every process shut down when Stop returns. Search (not proof): the harness built with go build -race runs the goroutine families and the engine family under the race detector.",
+         "PARTIAL: freedom from data races is a statement about Go's memory model; it is not modelled and no theorem is claimed for it (the race detector run is a search for a failing schedule). " + TRUST,
          "Coq proof (handler facts + transition-system mutex invariant) + differential correspondence + monitor"),
  "C12": ("Theorems: for all histories a timeout function runs only for a run persisted at that status, not stopped, not finished; memtimeoutstore refines the reference timeout store for every operation sequence (unknown IDs included); due <=> same workflow/status, not completed, expired; other timers untouched. For every state a poll cycle cancels a timer only directly after reading its run as moved/finished and completes it only directly after the stored transition (theorem on the cycle's trace). Monitor: fired only with an own due timer listed in this cycle.",
          TRUST, "Coq proof (token theorem + refinement by simulation) + differential correspondence + monitor"),
@@ -50,7 +50,7 @@ TEXT = {
          TRUST, "Coq proof (token theorem over all histories) + differential correspondence + monitor"),
  "C17": ("Theorems: memrecordstore refines the reference store for every operation sequence including caller mutations (simulation relation); paging theorem for all contents, filters, orders and page sizes. Correspondence: the real adapter on exhaustive short and random long sequences.",
          TRUST, "Coq proof (refinement by simulation, induction over op sequences) + differential correspondence"),
- "C18": ("Theorems: sqlstore.Store as a statement sequence over a transactional row store: for every failure position the committed database is unchanged and an error is returned; without failure exactly the record row and one outbox row are committed; the committed db abstracts to the reference store step; placeholders = arguments; the statement List builds with whereBuilder, read as SQL (OR weaker than AND, parentheses, placeholders in textual order, OFFSET then LIMIT), selects exactly the reference List page for every filter combination, order, limit and offset (C18_list_statement_meaning), and would not without the parentheses (C18_grouping_matters). Correspondence: the real sqlstore/sqltimeout on sqlmini (recording database/sql driver + in-process engine) with a failure at every statement; statement-log check; the token text and bound arguments of every List statement compared with the model's list_stmt; cross-check of the extracted model against the committed rows.",
+ "C18": ("Theorems: sqlstore.Store as a statement sequence over a transactional row store: for every failure position the committed database is unchanged and an error is returned; without failure exactly the record row and one outbox row are committed; the committed db abstracts to the reference store step; placeholders = arguments; the statement List builds with whereBuilder, read as SQL (OR weaker than AND, parentheses, placeholders in textual order, OFFSET then LIMIT), selects exactly the reference List page for every filter combination, order, limit and offset (C18_list_statement_meaning), and would not without the parentheses (C18_grouping_matters); adapters/sqltimeout as one statement per operation refines the reference timer list inside its domain (C18_sqltimeout_refines). Correspondence: the real sqlstore/sqltimeout on sqlmini (recording database/sql driver + in-process engine) with a failure at every statement; statement-log check; the token text and bound arguments of every List statement compared with the model's list_stmt; cross-check of the extracted model against the committed rows.",
          "PARTIAL: MySQL itself (isolation, datetime ties, collation) is replaced by sqlmini, as the property allows ('a reference SQL engine'). " + TRUST,
          "Coq proof (statement-level atomicity for all failure positions + refinement) + differential correspondence"),
  "C19": ("Theorems: memstreamer refines the reference stream (log + position per name) for every interleaving of send/new receiver/recv/ack/reconnect; delivery from the position, in send order, redelivery until ack. Domain: one topic per receiver name. Correspondence: exhaustive short and random sequences on the real adapter.",
